@@ -22,6 +22,10 @@ pub fn configs(thorough: bool) -> Vec<Config> {
         Config { name: "l2-h10.5-w2.4", heights: &[10, 5], ws: &[2, 4] },
         Config { name: "l3-h5.5.5-w1.1.1", heights: &[5, 5, 5], ws: &[1, 1, 1] },
         Config { name: "l1-h5-w8", heights: &[5], ws: &[8] },
+        // a lower level more permissive than the one above it
+        Config { name: "l2-h5.10-w4.2", heights: &[5, 10], ws: &[4, 2] },
+        // limits summing to less than 64 bits with keys of more than 32 bits
+        Config { name: "l4-h10.10.10.5-w2.2.2.2", heights: &[10, 10, 10, 5], ws: &[2, 2, 2, 2] },
     ];
     if thorough {
         v.extend(vec![
@@ -63,7 +67,7 @@ const ALL_H: [u32; 6] = [2, 5, 10, 15, 20, 25];
 const ALL_W: [u32; 4] = [1, 2, 4, 8];
 
 fn cheap(l: &[Level]) -> bool {
-    l.iter().all(|x| x.1 <= 10) && l.iter().filter(|x| x.1 == 10).count() <= 1
+    l.iter().all(|x| x.1 <= 10) && l.iter().filter(|x| x.1 == 10).count() <= 3
 }
 
 pub fn cases_for(c: &Config, hashes: &[HashId], per: usize) -> Vec<LimCase> {
@@ -86,11 +90,12 @@ pub fn cases_for(c: &Config, hashes: &[HashId], per: usize) -> Vec<LimCase> {
                     })
                     .collect();
                 let mut levels = levels;
-                // keep it affordable: at most one H10, and only with W <= 4
+                // keep it affordable: H10 only with W <= 4; several H10 levels only in the
+                // at-the-limit variant (needed to reach keys of more than 32 bits)
                 let mut seen10 = false;
                 for x in levels.iter_mut() {
                     if x.1 == 10 {
-                        if seen10 || x.0 == 8 {
+                        if x.0 == 8 || (seen10 && variant != 0) {
                             x.1 = 5;
                         } else {
                             seen10 = true;
@@ -161,7 +166,13 @@ fn behaviour(p: &ProbePool, c: &LimCase, other_sig: Option<(&str, &str, &str)>) 
     let total: u64 = 1u64 << c.levels.iter().map(|l| l.1).sum::<u32>().min(62);
     let bottom: u64 = 1u64 << c.levels.last().unwrap().1;
     let mut signs = Vec::new();
-    for ctr in [0u64, bottom - 1, bottom.min(total - 1), total - 1] {
+    let mut ctrs = vec![0u64, bottom - 1, bottom.min(total - 1), total - 1];
+    if total > (1u64 << 32) {
+        ctrs.push((1u64 << 32) - 1);
+        ctrs.push(1u64 << 32);
+        ctrs.push((1u64 << 33) + 7);
+    }
+    for ctr in ctrs {
         let blob = hss::private_key_blob(&c.levels, ctr, &seed);
         let s = p.call(&json!({"op": "sign", "hash": hname(c.hash), "sk": gen::hex(&blob), "msg": gen::hex(b"c14 message"), "accept": true}));
         let l = p.call(&json!({"op": "lifetime", "hash": hname(c.hash), "sk": gen::hex(&blob)}));
